@@ -30,7 +30,7 @@ INFO = dict(
               'offset 0, size = 4+10+|p|, CRC field = CRC32(magic,attr,key=-1,value) (uninterpreted CRC with the chaining law), magic 0, attr 0, '
               "null key, value = payload. The harness's own encoder builds produce/metadata responses from symbolic values and the real decoders "
               'must return exactly those; a reply frame is delivered to the request registered under its correlation id only.',
-  bounds={'quick': 'topic <=2 bytes; <=2 payloads of <=3 symbolic bytes; responses: <=1 topic x <=2 partitions; metadata <=2 brokers, 1 topic, <=2 partitions, <=2 replicas/isr; all integers over their full wire range; 2 different Put requests serialized at symbolic instants while the transport is still opening',
+  bounds={'quick': 'one well-formed response frame read by the real receive loop in TCP segments of symbolic sizes (first 4 reads, <= 4 bytes each); topic <=2 bytes; <=2 payloads of <=3 symbolic bytes; responses: <=1 topic x <=2 partitions; metadata <=2 brokers, 1 topic, <=2 partitions, <=2 replicas/isr; all integers over their full wire range; 2 different Put requests serialized at symbolic instants while the transport is still opening',
           'thorough': 'topic <=4 bytes; <=3 payloads of <=4 bytes; responses <=2 topics x <=2 partitions'},
   outside=['larger payload lists / longer payloads (sizes are computed by the same code paths; not claimed)', 'real CRC32 arithmetic (uninterpreted function + chaining law, checked concretely against zlib on every replay)',
            'the router sink above the transport (metadata refresh, leader selection)'],
@@ -38,7 +38,7 @@ INFO = dict(
          'BytesIO -> SymBytesIO (3.5)', 'zlib.crc32 -> uninterpreted term with the chaining law (3.7)', 'socket recorder; frames read from the send queue'],
   assumptions=['topic and payloads are byte strings (the wire type)'],
 )
-EXPECT_COVERS = ['puts-serialized-while-transport-opening', 'produce-empty-list', 'produce-empty-payload', 'produce-two-payloads', 'acks-out-of-range', 'metadata-two-brokers', 'reply-routed']
+EXPECT_COVERS = ['response-in-three-or-more-segments', 'puts-serialized-while-transport-opening', 'produce-empty-list', 'produce-empty-payload', 'produce-two-payloads', 'acks-out-of-range', 'metadata-two-brokers', 'reply-routed']
 
 
 def install_models():
@@ -65,6 +65,7 @@ def jobs(tier):
         if tl != 1 and np_ == mp and sum(lens) not in (0, mq * np_): continue    # thin out: full product only for 1-byte topics
         js.append(dict(name='produce-t%d-p%s' % (tl, ''.join(map(str, lens)) or 'none'), op='produce', tl=tl, lens=list(lens), cost=1 + sum(lens)))
   js.append(dict(name='header', op='header', cost=1))
+  js.append(dict(name='response-read-in-chunks', op='recvloop', cost=200, shards=8, shard_depth=4))
   for nt in range(0, (1 if tier == 'quick' else 2) + 1):
     for npart in range(0, 3):
       if nt == 0 and npart: continue
@@ -264,6 +265,49 @@ def make_body(job):
           check('duringopen.frame-carries-own-topic-and-payload', (b'topic-%d' % i) in mine[0] and (b'payload-%d' % i) in mine[0])
       check('no-greenlet-error', not vtime.ERRORS)
       transport.Close()
+    elif op == 'recvloop':
+      # a broker's (well-formed) response frame arrives in TCP segments of symbolic sizes: the real receive loop of the
+      # transport (VarzSocketWrapper.readAll over the socket handle) must hand exactly the frame's bytes to the request
+      # that carries its correlation id, whatever the segmentation
+      import gevent, gevent.event, io
+      from symex import vtime
+      from scales.scales_socket import ScalesSocket
+      from scales.varz import VarzSocketWrapper
+      from .c14 import ChunkHandle
+      vtime.setup()
+      mux_mod.BytesIO = io.BytesIO; mux_mod.unpack = _struct.unpack; ks_mod.unpack = _struct.unpack
+      body = _struct.pack('!i', 7) + _struct.pack('!ih', 1, 2) + b'tp' + _struct.pack('!iihq', 1, 0, 0, 42)
+      data = _struct.pack('!i', len(body)) + body
+      class Handle(ChunkHandle):
+        def _n(self, want):
+          if self.pos >= len(self.data): gevent.event.Event().wait()      # nothing more arrives: the read blocks
+          if len(self.sizes) >= 4:                  # only the first reads are segmented symbolically (at most 4 bytes each)
+            n = min(want, len(self.data) - self.pos); self.sizes.append(n); return n
+          return ChunkHandle._n(self, min(want, 4))
+      hd = Handle(data)
+      raw = ScalesSocket('h', 1); raw.handle = hd
+      sock = VarzSocketWrapper(raw, 'svc'); sock._is_open = True
+      sink = KafkaTransportSink(sock, 'svc'); sink._Init(); sink._state = ChannelState.Open
+      st, term, msg = new_call()
+      streams = []
+      orig_apr = term.AsyncProcessResponse
+      def apr(sink_stack, context, stream, m):
+        streams.append(stream); return orig_apr(sink_stack, context, stream, m)
+      term.AsyncProcessResponse = apr
+      msg.properties[mux_mod.Tag.KEY] = 7
+      sink._tag_map[7] = (st, 0, msg.properties)
+      g = gevent.spawn(sink._RecvLoop)
+      for _ in range(12): gevent.sleep(0)
+      if len(hd.sizes) >= 3: cover('response-in-three-or-more-segments')
+      check('recvloop.response-delivered-once', len(term.got) == 1)
+      if len(streams) == 1 and streams[0] is not None:
+        streams[0].seek(0)
+        got = bytes(streams[0].read())
+        check('recvloop.exact-frame-bytes', got == body)
+      else:
+        check('recvloop.exact-frame-bytes', False)
+      g.kill(block=False)
+
     elif op == 'routing':
       sink = KafkaTransportSink(Sock(), 'svc'); sink._Init(); sink._state = ChannelState.Open
       t0 = fresh_int('t0', 2, 2 ** 24 - 2); t1 = fresh_int('t1', 2, 2 ** 24 - 2)
